@@ -24,15 +24,15 @@ COMPONENTS = {"real": ["smpl_extract.actions (cue path), cuesheet, cdda/image, u
                        "stdout captured", "output in a /dev/shm sandbox behind an audit hook"]}
 ASSUMPTIONS = ["titles are safe unique words (hostile titles are C06's)", "all tracks AUDIO, first indices strictly increasing and inside the bin",
                "what simulation adds over plain generation here is only the torn-tail lengths, the block-size knob and the seam observation"]
-EXPECTED_PROBES = ["minutes_gt_0", "seconds_gt_0", "tail_not_multiple_of_4", "tail_not_multiple_of_2352", "multi_index", "untitled", "tracks_ge_3", "knob_not_default",
-                   "empty_last_track", "cli_crosscheck", "first_track_not_at_zero", "exported_twice", "keyword_like_title", "lr_titles", "cue_no_final_newline", "cue_crlf"]
+EXPECTED_PROBES = ["minutes_gt_0", "seconds_gt_0", "tail_not_multiple_of_4", "tail_not_multiple_of_2352", "multi_index", "untitled", "tracks_ge_3", "bin_in_subdirectory", "keywords_not_upper_case", "knob_not_default",
+                   "empty_last_track", "cli_crosscheck", "first_track_not_at_zero", "exported_twice", "keyword_like_title", "lr_titles", "cue_no_final_newline", "cue_crlf", "cue_larger_than_8k"]
 SHRINK = {"max_attempts": 300, "max_seconds": 40.0, "simple_values": {"block": [4096]}}
 KNOBS = [4, 8, 64, 510, 4096, 4096, 4096, 8192, 65536]
 CLI_EVERY = 60
 
 
 def gen_cdda_model(rng: random.Random, *, titles: str = "safe") -> dict:
-    nt = weighted(rng, [(1, 2), (2, 3), (3, 3), (rng.randint(4, 6), 2)])
+    nt = weighted(rng, [(1, 2), (2, 3), (3, 3), (rng.randint(4, 6), 2), (rng.randint(90, 99), 0.25)])
     sector = rng.choice([0, 0, 0, 1, 2, 75, 150, rng.randint(0, 30)])
     if rng.random() < 0.12:
         # minutes and seconds > 0: bins of tens of MB (content is periodic, see model/cdda.py)
@@ -52,6 +52,10 @@ def gen_cdda_model(rng: random.Random, *, titles: str = "safe") -> dict:
             m2, s2, f2 = C.msf(sector + rng.randint(1, 4))
             idxs = [[1, mm, ss, ff], [2, m2, s2, f2]]
         title = None if rng.random() < 0.3 else safe_name(rng, used)
+        if nt > 50:
+            # a full disc: 90-99 tracks with long titles make a cue sheet of more than 8 KiB
+            title = ("Track %02d " % (i + 1)) + "".join(rng.choice("abcdefghijklmnopqrstuvwxyz ") for _ in range(48)).strip()
+            used.add(title)
         if title is not None and rng.random() < 0.12:
             # titles are free text: they may look like cue keywords or like one half of an L/R pair
             title = rng.choice(["Bonus Track %d remix" % rng.randint(1, 9), "Track %02d Audio" % (i + 2), "Index 01 live", "INDEX 01 00 00 %02d" % rng.randint(0, 9),
@@ -68,7 +72,10 @@ def gen_cdda_model(rng: random.Random, *, titles: str = "safe") -> dict:
         tracks[a]["title"], tracks[b]["title"] = stem + sep + "L", stem + sep + "R"
     last = C.first_sector(tracks[-1])
     tail = weighted(rng, [(0, 2), (1, 1), (2, 1), (3, 1), (4, 1), (5, 1), (2351, 1), (2352, 2), (2353, 1), (rng.randint(0, 4 * 2352), 4)])
-    return {"bin_name": "disc.bin", "bin_key": "cd%d" % rng.getrandbits(30), "bin_len": last * C.SECTOR + tail, "tracks": tracks}
+    # the FILE entry is a path relative to the cue sheet; keywords are case-insensitive
+    bin_name = weighted(rng, [("disc.bin", 6), ("DISC.BIN", 1), ("audio/disc.bin", 1), ("rips/cd 1/disc.img", 1), ("my disc (1).bin", 1)])
+    kw_case = weighted(rng, [(None, 6), ("lower", 1), ("title", 1)])
+    return {"bin_name": bin_name, "kw_case": kw_case, "bin_key": "cd%d" % rng.getrandbits(30), "bin_len": last * C.SECTOR + tail, "tracks": tracks}
 
 
 def gen(rng: random.Random, tier: str, index: int) -> dict:
@@ -147,6 +154,12 @@ def run(sc: dict) -> RunResult:
         res.probes["keyword_like_title"] += 1
     if any(x.endswith((" L", "-L")) for x in ts) and any(x.endswith((" R", "-R")) for x in ts):
         res.probes["lr_titles"] += 1
+    if len(C.cue_text(model)) > 8192:
+        res.probes["cue_larger_than_8k"] += 1
+    if "/" in model["bin_name"]:
+        res.probes["bin_in_subdirectory"] += 1
+    if model.get("kw_case"):
+        res.probes["keywords_not_upper_case"] += 1
     if len(model["tracks"]) >= 3:
         res.probes["tracks_ge_3"] += 1
     if block != 4096:
